@@ -139,6 +139,15 @@ func (s *Sim) Chance(num, den int) bool {
 
 // Weighted picks an index with the given weights.
 func (s *Sim) Weighted(w ...int) int {
+	v := s.weighted(w...)
+	// a replayed / shrunk decision may point at an entry with weight 0: move on to the next eligible one
+	for i := 0; i < len(w) && w[v] == 0; i++ {
+		v = (v + 1) % len(w)
+	}
+	return v
+}
+
+func (s *Sim) weighted(w ...int) int {
 	return s.dec.next(len(w), func(r *rand.Rand) int {
 		tot := 0
 		for _, x := range w {
